@@ -765,6 +765,12 @@ trie_iter_next(qb_map_iter_t * i, void **value)
 	} else {
 		si->n = trie_node_next(p, si->root, QB_FALSE);
 	}
+	/* An insertion may have split the node the prefix was found on; it
+	 * then stands for a shorter prefix than the one asked for. */
+	while (si->n && si->prefix &&
+	       strncmp(si->n->key, si->prefix, strlen(si->prefix)) != 0) {
+		si->n = trie_node_next(si->n, si->root, QB_FALSE);
+	}
 	if (si->n == NULL) {
 		trie_node_deref(t, p);
 		return NULL;
